@@ -29,6 +29,30 @@ def main():
         mod = importlib.import_module(f"props.{a.pid}")
         if hasattr(mod, "replay"):
             return mod.replay(doc)
+        # generic replay on the CURRENT tree: re-discharge the obligation / re-run the stand-in and look for the same failure
+        from pyvc import verify
+        import re as _re
+        strip = lambda n: _re.sub(r"@L\d+", "", _re.sub(r":bmc\d+:", ":", n))      # noqa: E731
+        if doc.get("obligation"):
+            want = strip(doc["obligation"])
+            units = mod.units() if hasattr(mod, "units") else []
+            verify.register(units)
+            res = verify.verify_units([u.key for u in units if want.startswith(u.name + ":")]) if units else []
+            res += [r for r in (mod.extra("quick", seed) if hasattr(mod, "extra") else []) if want.startswith(r["unit"] + ":")]
+            found = [o for r in res for o in r["obligations"] if strip(o["name"]) == want]
+            bmc = [c for r in res for c in (r.get("bmc") or {}).get("counterexamples", []) if strip(c["name"]) == want]
+            if not found and not bmc:
+                print(f"REPLAY: obligation {want} is not generated on the current tree (undecided)")
+                return 2
+            bad = [o for o in found if o["status"] == "refuted"] + bmc
+            print(f"REPLAY: {want}: " + ("still refuted on the current tree" if bad else "discharged on the current tree" if all(o["status"] == "discharged" for o in found) else "undecided on the current tree"))
+            return 1 if bad else 0
+        if doc.get("standin") and hasattr(mod, "standins"):
+            fid = (doc.get("failure") or {}).get("id")
+            res = mod.standins("quick", seed) + (mod.standins("thorough", seed) if os.environ.get("VERIF_REPLAY_THOROUGH") else [])
+            hit = [f for r in res if r["name"] == doc["standin"] for f in r["failures"] if f["id"] == fid]
+            print(f"REPLAY: stand-in {doc['standin']} failure {fid}: " + ("reproduced on the current tree" if hit else "not reproduced on the current tree (quick-tier space)"))
+            return 1 if hit else 0
         return 0
     from pyvc import report, verify
     try:
